@@ -70,7 +70,7 @@ def sgn(v, bits):
 class Engine:
     def __init__(E, mod, lib_globals=(), opts=None):
         E.mod = mod; E.opts = opts or {}
-        E.solver = z3.Solver(); E.solver.set('timeout', int(E.opts.get('solver_timeout_ms', 120000)))
+        E.solver = z3.SolverFor('QF_BV') if not os.environ.get('UK_Z3_DEFAULT') else z3.Solver(); E.solver.set('timeout', int(E.opts.get('solver_timeout_ms', 20000)))
         E.lstack = []; E.npushed = 0; E.xc = 0; E.xc_all = bool(os.environ.get('UK_CROSSCHECK'))
         E.stats = {'paths': 0, 'instr': 0, 'queries': 0, 'solver_s': 0.0, 'forks': 0, 'asserts_checked': 0,
                    'asserts_solver': 0, 'assumed_away': 0, 'memchecks': 0, 'model_hits': 0, 'states': 0, 'dom_pruned': 0, 'dom_feasible': 0, 'dom_crosschecked': 0}
@@ -94,8 +94,42 @@ class Engine:
         s.push(); s.add(cond); r = s.check()
         m = s.model() if r == z3.sat else None
         s.pop(); E.stats['queries'] += 1; E.stats['solver_s'] += time.time() - t0
-        if r == z3.unknown: raise Inconclusive('solver returned unknown: ' + s.reason_unknown())
+        if r == z3.unknown:
+            # the incremental core gave up: ask cvc5 (fresh, full preprocessing), then a fresh z3 instance
+            try:
+                return E.check_cvc5(cond)
+            except Inconclusive:
+                pass
+            t1 = time.time(); s2 = z3.Solver(); s2.set('timeout', int(E.opts.get('solver_timeout_ms', 20000)) * 3)
+            s2.add(list(E.lstack) + [cond]); r2 = s2.check(); E.stats['fresh_queries'] = E.stats.get('fresh_queries', 0) + 1; E.stats['solver_s'] += time.time() - t1
+            if r2 == z3.sat: return s2.model()
+            if r2 == z3.unsat: return None
+            raise Inconclusive('z3 (incremental and fresh) and cvc5 all inconclusive')
         return m
+    def check_cvc5(E, cond):
+        """second opinion when z3 gives up (multiplication/division kernels): cvc5 with the integer encoding of bit-vectors"""
+        import subprocess, tempfile, re
+        t0 = time.time(); s = E.solver
+        s.push(); s.add(cond); txt = s.to_smt2(); s.pop()
+        vs = sorted(domain.vars_of(z3.And(list(E.lstack) + [cond])))
+        names = [domain._varast[v] for v in vs]
+        txt = '(set-option :produce-models true)\n' + txt.replace('(check-sat)', '(check-sat)\n' + ('(get-value (%s))\n' % ' '.join('|%s|' % n.decl().name() for n in names) if names else ''))
+        with tempfile.NamedTemporaryFile('w', suffix='.smt2', delete=False, dir=E.opts.get('tmpdir')) as f: f.write(txt); path = f.name
+        try:
+            r = subprocess.run(['cvc5', '--tlimit=%d' % int(E.opts.get('cvc5_timeout_ms', 120000)), path], capture_output=True, text=True, timeout=300)
+            out = r.stdout
+        except subprocess.TimeoutExpired: out = 'timeout'
+        finally:
+            if os.environ.get('UK_KEEP_SMT2'): print('kept', path, flush=True)
+            else: os.unlink(path)
+        E.stats['cvc5_queries'] = E.stats.get('cvc5_queries', 0) + 1; E.stats['solver_s'] += time.time() - t0
+        first = out.strip().split('\n')[0] if out.strip() else ''
+        if first == 'unsat': return None       # (the following get-value then fails, which is expected)
+        if '(error' in out or first != 'sat': raise Inconclusive('z3 unknown and cvc5 inconclusive: ' + out[:200])
+        vals = {}
+        for mm in re.finditer(r'\(\|?([^\s|()]+)\|? #b([01]+)\)', out): vals[mm.group(1)] = int(mm.group(2), 2)
+        for mm in re.finditer(r'\(\|?([^\s|()]+)\|? #x([0-9a-fA-F]+)\)', out): vals[mm.group(1)] = int(mm.group(2), 16)
+        return DictModel(vals)
     def vals_from_model(E, st, m):
         return {var.get_id(): m.eval(var, model_completion=True).as_long() for _, _, var in st.inputs}
     def holds(E, st, cond):
@@ -128,7 +162,7 @@ class Engine:
         return None if m is None else E.vals_from_model(st, m)
     def crosscheck(E):
         E.xc += 1
-        return E.xc_all or E.xc % 257 == 0
+        return E.xc_all or E.xc % 61 == 0
     def xcheck(E, cond, expect):
         E.stats['dom_crosschecked'] += 1
         m = E.check(cond)
@@ -355,8 +389,10 @@ class Engine:
                             if op == 'sext' and v >> (sb - 1): v |= ((1 << db) - 1) ^ ((1 << sb) - 1)
                             regs[I[1]] = v & ((1 << db) - 1)
                         elif type(v) is tuple:
-                            if op == 'trunc' and v[0] == 'I': raise Unsupported('trunc of pointer value')
-                            raise Unsupported('cast of pointer')
+                            if v[0] != 'I': raise Unsupported('cast of pointer')
+                            # integer derived from a pointer (e.g. difference with NULL): deterministic fake address, noted
+                            E.ub_notes['integer derived from a pointer narrowed/extended in ' + fr.fn.name] = 1
+                            regs[I[1]] = E.addr(v[1]) & ((1 << db) - 1)
                         elif z3.is_bool(v):
                             regs[I[1]] = z3.If(v, z3.BitVecVal((1 << db) - 1 if op == 'sext' else 1, db), z3.BitVecVal(0, db))
                         elif op == 'zext': regs[I[1]] = z3.ZeroExt(db - sb, v)
@@ -524,6 +560,13 @@ class Engine:
         if nsw and op in ('add', 'sub', 'mul') and E.opts.get('overflow_check', True):
             if op == 'add': bad = z3.Not(z3.And(z3.BVAddNoOverflow(x, y, True), z3.BVAddNoUnderflow(x, y)))
             elif op == 'sub': bad = z3.Not(z3.And(z3.BVSubNoOverflow(x, y), z3.BVSubNoUnderflow(x, y, True)))
+            elif ta is int or tb is int:
+                c = sgn(a if ta is int else b, bits); sx = y if ta is int else x
+                mx = (1 << (bits - 1)) - 1; mn = -(1 << (bits - 1))
+                if c == 0 or c == 1: bad = z3.BoolVal(False)
+                elif c > 0: bad = z3.Or(sx > z3.BitVecVal(mx // c, bits), sx < z3.BitVecVal(-((-mn) // c), bits))
+                elif c == -1: bad = (sx == z3.BitVecVal(mn & ((1 << bits) - 1), bits))
+                else: bad = z3.Or(sx < z3.BitVecVal(-(mx // -c), bits), sx > z3.BitVecVal((-mn) // -c, bits))
             else: bad = z3.Not(z3.And(z3.BVMulNoOverflow(x, y, True), z3.BVMulNoUnderflow(x, y)))
             # cheap syntactic filter: operands that are extensions of narrower values cannot overflow add/sub
             if not E.narrow(x, y, bits, op):
@@ -684,7 +727,7 @@ class Engine:
         if action[0] == 'goto':
             fr.prev = fr.blk; fr.blk = action[1]; fr.ip = 0
         elif action[0] == 'set':
-            fr.regs[action[1]] = action[2]
+            if action[1] is not None: fr.regs[action[1]] = action[2]
         elif action[0] == 'subst':
             # replace the symbolic term by its value in the frame's registers (identity match)
             t = action[1]; v = action[2]
@@ -790,6 +833,12 @@ class Engine:
         stack = [f.fn.name for f in st.frames][-8:]
         rec = {'kind': kind, 'msg': msg, 'stack': stack, 'inputs': E.model_inputs(st), 'rendered': E.render_inputs(st), 'texts': E.render_notes(st)}
         E.violations.append(rec)
+
+class DictModel:
+    def __init__(s, vals): s.vals = vals
+    def eval(s, t, model_completion=True):
+        pairs = [(domain._varast[v], z3.BitVecVal(s.vals.get(domain._varast[v].decl().name(), 0), domain._varast[v].size())) for v in domain.vars_of(t)]
+        return z3.simplify(z3.substitute(t, pairs)) if pairs else z3.simplify(t)
 
 class SymIndex(Exception):
     def __init__(s, term, bits): s.term = term; s.bits = bits
